@@ -15,8 +15,8 @@ from . import c01, dist, mgr
 TOL = 1e-6
 
 
-def check_case(groups, power):
-    r = mgr.run_battery(groups, power, {})
+def check_case(groups, power, adjust_power=True):
+    r = mgr.run_battery(groups, power, {}, adjust_power=adjust_power)
     v = []
     res = r["result"]
     if r["error"] or not isinstance(res, Success):
@@ -46,9 +46,12 @@ def shard(args) -> Acc:
             groups = [g0] if g1 is None else [g0, g1]
             for sign in (1, -1):
                 menu = dist.request_menu(groups, 1.0, sign, boundary=True)
-                for p in menu:
+                rs_ = [dist.ref_group(g, sign) for g in groups]
+                adv_incl = sum(r_["adv_incl"] for r_ in rs_)
+                for p, adjust in [(p, True) for p in menu] + [(p, False) for p in menu if p <= adv_incl + 1e-9]:
+                    # adjust_power=False ("strict"): only requests the advertised bounds admit are accepted at all
                     power = sign * p
-                    r, viol = check_case(groups, power)
+                    r, viol = check_case(groups, power, adjust)
                     acc.evaluations += 1
                     acc.traces += 1
                     acc.transitions += len(r["calls"]) + 1
@@ -59,7 +62,7 @@ def shard(args) -> Acc:
                         acc.clauses[c] += 1
                     acc.outcome(f"manager n={len(groups)} calls={len(r['calls'])} {'excess' if r['result'] is not None and abs(r['result'].excess_power.as_watts()) > 1e-9 else 'full'}")
                     for clause, detail in viol:
-                        case = dict(dist.case_json(groups, 1.0, power), driver="manager")
+                        case = dict(dist.case_json(groups, 1.0, power), driver="manager", adjust_power=adjust)
                         acc.violation(Violation(clause, case, detail, dist.input_classes(groups, 1.0, power)))
     return acc
 
@@ -81,5 +84,5 @@ def run(tier, seed, workers):
 
 def replay(case):
     groups, _, power = dist.case_from_json(case)
-    _, viol = check_case(groups, power)
+    _, viol = check_case(groups, power, case.get("adjust_power", True))
     return viol
